@@ -115,7 +115,8 @@ def stats(traces, ctx):
 def replay_job(tr):
     """Everything --replay needs: the plan and the exact schedule that was run."""
     return {"tid": "replay", "plan": tr["plan"], "rplan": tr["rplan"], "rmode": tr.get("rmode", []), "pplan": tr.get("pplan", []),
-            "mode": tr["mode"], "zclass": tr.get("zclass", "versioned"), "policy": ["list", tr.get("ran", [])]}
+            "mode": tr["mode"], "zclass": tr.get("zclass", "versioned"), "handoff": bool(tr.get("handoff")),
+            "policy": ["list", tr.get("ran", [])]}
 
 
 def run(ctx):
@@ -170,8 +171,10 @@ def run(ctx):
         for c in cfgs:  # one after another: vlib/tlc.py throttles concurrent JVMs machine-wide, so starting
             ctx.model("MC_WriterAdmission", c)  # them side by side only multiplies the wait for slots
         # ---------------------------------------------------------------- 2. spec -> code
-        sch = gen_schedules(ctx, "genA.cfg", [1, 2, 3], [5], 1, 1, ["commit", "rollback"], "EagerA",
-                            plans="MCPlansLive" if mini else "MCPlansSym" if quick else "MCPlans")
+        # how a transaction ends is part of the script: explicit commit / rollback, or a with-block left by a
+        # BaseException that is not an Exception ("exit" = SystemExit); every non-commit ending is the spec's rollback path
+        sch = gen_schedules(ctx, "genA.cfg", [1, 2, 3], [5], 1, 1, ["commit", "rollback"] if mini else ["commit", "rollback", "exit"],
+                            "EagerA", plans="MCPlansLive" if mini else "MCPlansSym")
         if not mini:
             sch += gen_schedules(ctx, "genP.cfg", [1, 2], [5], 1, 2, ["commit", "rollback"], "EagerA", plans="MCPlansCommit",
                                  policers=[7], rmodes=("byid", "byinit") if not quick else ("byid",))
@@ -193,7 +196,7 @@ def run(ctx):
                         "events": [[e["t"], e["op"], e["o"]] for e in tr["ev"]], "first_event": tr["ev"][0]})
         # ---------------------------------------------------------------- 3. code -> spec, line level
         # (plan, rplan, rmode, pplan)
-        plans = [([["commit"], ["rollback"], ["commit"]], [1], ["latest"], []),
+        plans = [([["commit"], ["rollback"] if mini else ["interrupt"], ["commit"]], [1], ["latest"], []),
                  ([["commit"], ["commit"]], [2], ["byid"], [3, 1])]
         if mini:
             plans = plans[:1]
@@ -212,6 +215,14 @@ def run(ctx):
                 base = {"tid": "p%d.%s" % (pi, "".join(map(str, prio))), "plan": plan, "rplan": rplan, "rmode": rmode,
                         "pplan": pplan, "mode": "lines", "policy": ["pre", list(prio), []]}
                 bjobs.append({"tid": base["tid"], "base": base, "k": 1, "kinds": None})
+        # hand-off: OS thread 1 opens the transaction of writer 1, a helper (OS thread 8) ends it, thread 1 calls
+        # writer() again as writer 2 while the first may still be open; writer 3 competes
+        if not mini:
+            for hi, how1 in enumerate(["commit", "rollback"]):
+                for prio in itertools.permutations([1, 8, 3]):
+                    base = {"tid": "h%d.%s" % (hi, "".join(map(str, prio))), "plan": [[how1], ["commit"], ["commit"]], "rplan": [0],
+                            "rmode": ["latest"], "pplan": [], "handoff": True, "mode": "lines", "policy": ["pre", list(prio), []]}
+                    bjobs.append({"tid": base["tid"], "base": base, "k": 1, "kinds": None})
         # a targeted sub-family of k = 2: the first deviation inside the pruning / commit / reader-registration code
         # (a thread is switched out in the middle of the retention bookkeeping), the second at an API return of
         # another thread (it is switched out while it still holds its transaction).  This is where "a reader opened BY
@@ -250,13 +261,16 @@ def run(ctx):
         # seeded random line-level schedules (also 4 writers / 2 transactions / 2 readers)
         nrand = 150 if mini else 400 if quick else 6000
         rplans = [([["commit"], ["rollback"], ["commit"]], [1], ["latest"], []),
-                  ([["commit", "commit"], ["rollback", "commit"]], [2], ["byid"], [2, 0, 1]),
-                  ([["commit"], ["commit"], ["rollback"], ["commit"]], [1, 2], ["latest", "byinit"], []),
+                  ([["commit", "raise"], ["exit", "commit"]], [2], ["byid"], [2, 0, 1]),
+                  ([["commit"], ["genexit"], ["rollback"], ["commit"]], [1, 2], ["latest", "byinit"], []),
                   ([["empty"], ["commit"], ["commit"]], [2], ["byinit"], [3, 1])]
         rjobs = []
         for i in range(nrand):
             plan, rplan, rmode, pplan = rplans[i % len(rplans)]
+            if i % 5 == 4:
+                plan, rplan, rmode, pplan = [["commit"], ["rollback", "commit"], ["exit"]], [1], ["latest"], []
             rjobs.append({"tid": "r%d" % i, "plan": plan, "rplan": rplan, "rmode": rmode, "pplan": pplan, "mode": "lines",
+                          "handoff": i % 5 == 4,
                           "policy": ["rand", ctx.seed * 1000003 + i, (0.05, 0.15, 0.4)[i % 3]]})
         before = len(seen)
         out = ctx.pmap(drv.run_job, rjobs)
